@@ -56,6 +56,9 @@ type M struct {
 	used     map[string]int
 	issuedN  map[string]int
 	smsIssue map[string]int // code -> how many times that code value has been sent
+	pidOwner map[string]string
+	lastAct  map[string]time.Time
+	lastActU map[string]string
 	Last    *world.Result
 	LastObs string
 	LastOp  string
